@@ -178,6 +178,9 @@ func runC06(c c06case, rep *lib.Report) {
 	if c.k > 1 {
 		rep.Count("cases_with_retries")
 	}
+	if c.k > 1 || (c.size > c.mem && c.mem > 0) {
+		rep.Nontrivial++ // each case is distinct (one point of the product); counted once
+	}
 	for i, s := range seen {
 		pre := fmt.Sprintf("%v: attempt %d ", c, i+1)
 		switch {
@@ -269,7 +272,6 @@ func RunC06(tier string, sh lib.Shard, rep *lib.Report) {
 			rep.Sample(4, c.String())
 		}
 	}
-	rep.Nontrivial = rep.Counters["cases_with_retries"] + rep.Counters["requests_spilled_to_disk"]
 }
 
 func ReplayC06(rp map[string]any) (bool, string) {
